@@ -191,8 +191,9 @@ package cache
 //@   ensures !(cacheExpirationTime.ns < now.ns) && ret(msgPack, 0, 1) == nil && calls(writeBlock) == 0 ==> len(block.Entries) == old(len(block.Entries)) + 1 && entryOf(block.Entries[old(len(block.Entries))], k, old(v.storedTime.ns), old(v.expirationTime.ns), cacheExpirationTime.ns) && block.Entries[old(len(block.Entries))].Msg == ret(msgPack, 0, 0)
 //@   ensures !(cacheExpirationTime.ns < now.ns) && ret(msgPack, 0, 1) == nil && calls(writeBlock) == 1 ==> atcall(writeBlock, 0, len(block.Entries) == old(len(block.Entries)) + 1 && entryOf(block.Entries[old(len(block.Entries))], k, old(v.storedTime.ns), old(v.expirationTime.ns), cacheExpirationTime.ns) && len(block.Entries) >= 128)
 //@   ensures calls(writeBlock) <= 1 && (calls(writeBlock) == 1 ==> result == ret(writeBlock, 0))
-// entryOf: the dump entry e carries key k and the three times (whole seconds) of a cache entry
-//@ spec func entryOf(e *CachedEntry, k key, stored int, msgExp int, cacheExp int) bool = e != nil && len(e.Key) == len(k) && (forall i int :: 0 <= i && i < len(k) ==> e.Key[i] == k[i]) && e.MsgStoredTime == stored / 1000000000 && e.MsgExpirationTime == msgExp / 1000000000 && e.CacheExpirationTime == cacheExp / 1000000000
+// entryOf: the dump entry e carries key k — as a BYTE string (cap(e.Key)): cache keys are binary
+// (flag byte, type, class, length byte), not text — and the three times (whole seconds) of a cache entry
+//@ spec func entryOf(e *CachedEntry, k key, stored int, msgExp int, cacheExp int) bool = e != nil && len(e.Key) == len(k) && cap(e.Key) >= len(k) && (forall i int :: 0 <= i && i < len(k) ==> e.Key[i] == k[i]) && e.MsgStoredTime == stored / 1000000000 && e.MsgExpirationTime == msgExp / 1000000000 && e.CacheExpirationTime == cacheExp / 1000000000
 
 // one block of readDump: the allocation for the block body is bounded by 1 MiB BEFORE it is made;
 // every read / decode error is reported (only EOF on the block header yields the end marker);
